@@ -69,3 +69,27 @@ def timing(g="g", l="l", basis_g="ground-rydberg", basis_l="digital", eom=True, 
             ("add", C52, g, "bad-protocol"),
         ]
     return A
+
+
+def two_globals(a="g", b="h", basis="ground-rydberg"):
+    """Two global channels on one basis (reusable device)."""
+    return [
+        ("add", C52, a),
+        ("add", C52P, a),
+        ("add", B100, a, "no-delay"),
+        ("add", C52, b),
+        ("add", C52P, b, "wait-for-all"),
+        ("add", B100, b, "min-delay"),
+        ("add", C50, b, "no-delay"),
+        ("delay", 16, a),
+        ("delay", 100, b, True),
+        ("align", (a, b), True),
+        ("align", (a, b), False),
+        ("phase_shift", 1.0, ("q0",), basis),
+        ("phase_shift", -0.5, ("q0", "q1"), basis),
+        ("enable_eom", a, 2.0, 0.0, -10.0, False),
+        ("eom_pulse", a, 52, 0.0, 0.0, "min-delay", False),
+        ("eom_pulse", a, 52, PI2, 0.0, "wait-for-all", False),
+        ("delay", 52, a),
+        ("disable_eom", a, False),
+    ]
